@@ -319,19 +319,40 @@ func isInduction(v ssa.Value) bool {
 	return hasConst && hasStep
 }
 
-// callSites returns, in source order, the static calls of the named callee in fn.
+// callSites returns the static calls of the named callee in fn, in source
+// order, followed by those in the module functions fn calls (two levels), so
+// that a literal conversion moved into a helper is still found.
 func callSites(fn *ssa.Function, callee string) []*ssa.Call {
 	var out []*ssa.Call
-	for _, b := range fn.Blocks {
-		for _, instr := range b.Instrs {
-			if c, ok := instr.(*ssa.Call); ok {
-				if sc := c.Common().StaticCallee(); sc != nil && (FnName(sc) == callee || calleeFullName(sc) == callee) {
-					out = append(out, c)
+	seen := map[*ssa.Function]bool{}
+	var walk func(f *ssa.Function, d int)
+	walk = func(f *ssa.Function, d int) {
+		if f == nil || seen[f] || f.Blocks == nil || d > 2 {
+			return
+		}
+		seen[f] = true
+		var here []*ssa.Call
+		var next []*ssa.Function
+		for _, b := range f.Blocks {
+			for _, instr := range b.Instrs {
+				if c, ok := instr.(*ssa.Call); ok {
+					if sc := c.Common().StaticCallee(); sc != nil {
+						if FnName(sc) == callee || calleeFullName(sc) == callee {
+							here = append(here, c)
+						} else if InModule(sc) && sc.Pkg == fn.Pkg && sc.Signature.Recv() == nil {
+							next = append(next, sc) // package-level helpers only: methods are the grammar's own structure
+						}
+					}
 				}
 			}
 		}
+		sort.Slice(here, func(i, j int) bool { return here[i].Pos() < here[j].Pos() })
+		out = append(out, here...)
+		for _, n := range next {
+			walk(n, d+1)
+		}
 	}
-	sort.Slice(out, func(i, j int) bool { return out[i].Pos() < out[j].Pos() })
+	walk(fn, 0)
 	return out
 }
 
